@@ -285,3 +285,7 @@ PROPS["C18"]["rule"] += "; composition in a stream: (Seq, u32) tuples, Vec<Seq>,
 PROPS["C20"]["rule"] += "; Foreign: two harness-defined maskable codecs of the built-in widths (4, 5 bits) with different masking, used before and after the built-in ones in one process; the binary runs once per first-touch order (custom first / built-in first)"
 PROPS["C04"]["rule"] += "; the infallible conversions usize::from(Seq) / u8::from(&SeqSlice) of more bits than the integer has must not return a value"
 PROPS["C15"]["rule"] += "; Many: one amino acid with 255..258, 511..513, 65535..65537 codons (lengths 1..4), one with exactly one, one with two, three constructions each"
+
+# round 7
+PROPS["C16"]["rule"] += "; every positive and negative family also in Rust's other spellings of the same string value (raw strings r\"..\" and r##\"..\"##, \\x.. and \\u{..} escapes, mixtures)"
+PROPS["C17"]["rule"] += "; kmer_laws: the derived codecs of the laws set through text -> k-mer -> text, try_from(&slice), == &str, Seq::from(kmer), u64/u128 storages and kmers::<K>() for K in {1,2,3,fit-1,fit}; G9: codecs without a zero code (2, 3, 8 bits)"
